@@ -99,7 +99,7 @@ CLAIMS = {
             "C13_accept_ipv6 (bracketed literals relative to netip.ParseAddr: zone-free, not IPv4-mapped, canonical text = the literal), C13_reject_ipv6_defects (conversely every accepted IPv6 pattern has these three properties), C13_self (an accepted pattern without `*.`/`:*`, presented verbatim as Origin within the length cap, is parsed by the request-side lexer into an origin the pattern denotes), "
             "C13_accept_self (a documented wildcard-free pattern presented verbatim as an Origin parses and is denoted, also at all length maxima at once), C13_accepted_form / C13_reject_bad_host_byte (every accepted bracket-free pattern is literally scheme://host + nothing / `:*` / `:`canonical-decimal(1..65535), "
             "host bytes from the documented alphabet: upper-case and non-ASCII hosts, userinfo, path, query, fragment, whitespace, empty/zero/over-range/over-long/leading-zero ports are rejected), "
-            "C13_constants / C13_alphabets (the regenerated length maxima, ports, separators and byte tables are the documented ones; the request-side cap is the sum of the maxima), C13_accepted_shape, C13_reject_null/_star/_file/_no_sep/_bad_first_byte, C13_parse_sound (the request-side lexer accepts nothing but serialisations), C13_accept_ipv6_canonical (for every IPv6 address that is not IPv4-mapped, the pattern with its RFC 5952 canonical text between brackets is accepted: net/netip on IPv6 text is modelled in Model/Net.lean, Net.fields_render proves parse(render(address)) = address for the model, and the driver compares the model with the library on every host the harness reports and on the exhaustive ip6x suite), C13_netip_hext (Props/C13.lean). "
+            "C13_constants / C13_alphabets (the regenerated length maxima, ports, separators and byte tables are the documented ones; the request-side cap is the sum of the maxima), C13_accepted_shape, C13_reject_null/_star/_file/_no_sep/_bad_first_byte, C13_parse_sound (the request-side lexer accepts nothing but serialisations), C13_accept_ipv6_canonical (for every IPv6 address that is not IPv4-mapped, the pattern with its RFC 5952 canonical text between brackets is accepted: net/netip on IPv6 text is modelled in Model/Net.lean, Net.fields_render proves parse(render(address)) = address for the model, and the driver compares the model with the library on every host the harness reports and on the exhaustive ip6x suite), C13_accepted_ipv6_form (the converse: an accepted IPv6 host is the canonical text of the address it parses to), C13_netip_hext (Props/C13.lean). "
             "Tie: `lex` suite (ParsePattern verdict and Reason, Parse results on grammar-directed strings, patterns at every maximum at once, single-defect and boundary-splice mutations), judged by an independent grammar oracle.",
             '6/C13', 'IPv6 literals and Punycode labels are judged by net/netip and x/net/idna, modelled as oracles: the theorems about them are relative to the oracle answers, which the tie takes from the real libraries per case; grey zones (`_`, hyphens in label positions 3-4, digit-leading last label) are excluded from the grammar.'),
     'C14': ('proof', 'Lean 4 equivalence proof model = specification (induction over fuel/lines/elements; strict total order on byte strings) + differential tie',
